@@ -308,7 +308,8 @@ def r12_5(cx):
     cx.floor('R12.5', 'AhoCorasick replace wrappers', n, 4)
 
 
-RULES = [('R12.2', r12_loops), ('R12.4', r12_4), ('R12.5', r12_5)]
+from rules.prefilter import r05_3
+RULES = [('R12.2', r12_loops), ('R12.4', r12_4), ('R12.5', r12_5), ('R05.3', r05_3)]
 
 CLAIM = """Static decision of the splice mechanism for every path of the four replace routines: the iterator source, the three per-match
 events with their exact slice bounds and order, the two definitions of last_match, the closure-result exit, the tail append before
